@@ -21,21 +21,58 @@
 (*  MF MN  materializer(d2).get_model_matrix(formula text), pandas / sparse  *)
 (*  MR     materializer(d2).get_model_matrix(spec(B1))   (ONE shared         *)
 (*         materializer instance for MF, MN, MR)                             *)
+(*                                                                          *)
+(* The CONTEXT is an argument too.  A formula calls NAMES (center, scale,   *)
+(* tf, ns.tf); what a name denotes is decided per call, per phase (fit /    *)
+(* reuse), by the environment of THAT phase: the caller's context shadows   *)
+(* the built-in transforms.  Two contexts of one caller bind the same names *)
+(* to different KINDS of callable (Env below): a stateful transform gets    *)
+(* and records state, a plain function does not.  Family "contexts":        *)
+(*  G1 H1  model_matrix(xformula text, d1, context c / x)                    *)
+(*  GR HR  the same build, its spec reused at once on d2 under the same      *)
+(*         context (what was recorded at the fit becomes observable)        *)
+(*  B1 R   as above (their formula calls the built-in center and scale)      *)
+(* An operation's outcome is the kind every called name resolves to in      *)
+(* every phase.  In the specification (Variant "pure") it is a function of  *)
+(* the operation alone, hence Indep: every call returns what it returns     *)
+(* when it is the only call of the process.  Variant "memo_by_name" is the  *)
+(* design error of remembering per NAME (process-wide) what kind of         *)
+(* callable it denotes - the first resolution wins for all later calls,     *)
+(* whatever their context; TLC must refute Indep for it (it cannot refute   *)
+(* Det: first-wins makes every REPETITION agree with the first occurrence,  *)
+(* which is why recorded histories are also held against the canonical      *)
+(* single-operation run).                                                    *)
 (***************************************************************************)
 EXTENDS Integers, Sequences, FiniteSets
-Ops == {"B1", "B2", "F1", "U1", "U2", "R", "S", "P", "UPD", "MF", "MN", "MR"}
-Objects == {"d1", "d2", "formula", "uspec", "spec1", "context"}      \* context: the caller's mapping and the objects in it
+CONSTANTS Family,       \* "objects": histories over shared objects | "contexts": histories over two contexts
+          Variant       \* "pure" | "memo_by_name" (to be refuted)
+ObjOps == {"B1", "B2", "F1", "U1", "U2", "R", "S", "P", "UPD", "MF", "MN", "MR"}
+CtxOps == {"B1", "R", "G1", "H1", "GR", "HR"}
+Ops == IF Family = "contexts" THEN CtxOps ELSE ObjOps
+Objects == {"d1", "d2", "formula", "uspec", "spec1", "context", "xcontext"}      \* context, xcontext: the caller's mappings and the objects in them
+\* what the two contexts of the caller (layered over the built-in transforms) make of the names formulas call
+Env == [c |-> [center |-> "stateful", scale |-> "stateful", tf |-> "plain", nstf |-> "plain"],          \* built-ins; the user's plain tf and ns.tf
+        x |-> [center |-> "plain", scale |-> "plain", tf |-> "stateful", nstf |-> "stateful"]]          \* the user's own center / scale (plain); tf, ns.tf decorated as stateful transforms
+Calls(op) == IF op \in {"G1", "H1", "GR", "HR"} THEN {"center", "scale", "tf", "nstf"} ELSE {"center", "scale"}
+Phases(op) == CASE op = "H1" -> <<"x">> [] op = "HR" -> <<"x", "x">> [] op = "GR" -> <<"c", "c">> [] OTHER -> <<"c">>
+NoNames == [n \in {} |-> ""]
+\* memo_by_name: names already met keep their first kind; the others are resolved (and remembered) in the first phase of the operation
+Remember(op, sn) == [n \in DOMAIN sn \cup Calls(op) |-> IF n \in DOMAIN sn THEN sn[n] ELSE Env[Phases(op)[1]][n]]
+Outcome(op, sn) == [p \in DOMAIN Phases(op) |-> [n \in Calls(op) |-> IF Variant = "memo_by_name" THEN Remember(op, sn)[n] ELSE Env[Phases(op)[p]][n]]]
 \* abstract results and fingerprints: symbolic constants
-ResultOf(op) == op
+ResultOf(op, sn) == <<op, Outcome(op, sn)>>
+Alone(op) == ResultOf(op, NoNames)           \* the operation as the only call of a fresh process
 Fp0(obj) == obj
 
-VARIABLES hist, memo, heap, last
-vars == <<hist, memo, heap, last>>
-Init == hist = <<>> /\ memo = [o \in {} |-> ""] /\ heap = [o \in Objects |-> Fp0(o)] /\ last = ""
+VARIABLES hist, memo, heap, last, seen       \* seen: hidden state of the erroneous variant only (name -> kind); empty for ever in the specification
+vars == <<hist, memo, heap, last, seen>>
+Init == hist = <<>> /\ memo = [o \in {} |-> <<>>] /\ heap = [o \in Objects |-> Fp0(o)] /\ last = <<>> /\ seen = NoNames
 Do(op) == /\ hist' = Append(hist, op)
-          /\ last' = ResultOf(op)
-          /\ memo' = [o \in DOMAIN memo \cup {op} |-> IF o = op THEN ResultOf(op) ELSE memo[o]]
+          /\ last' = ResultOf(op, seen)
+          /\ memo' = [o \in DOMAIN memo \cup {op} |-> IF o = op THEN ResultOf(op, seen) ELSE memo[o]]
           /\ heap' = heap                       \* pure: nothing live is modified
+          /\ seen' = IF Variant = "memo_by_name" THEN Remember(op, seen) ELSE seen
 Det == [][\A op \in Ops : (hist' = Append(hist, op) /\ op \in DOMAIN memo) => last' = memo[op]]_vars
+Indep == [][\A op \in Ops : hist' = Append(hist, op) => last' = Alone(op)]_vars
 Frame == [][\A o \in Objects : heap'[o] = heap[o]]_vars
 =============================================================================
